@@ -37,7 +37,8 @@ class ListView(View):
         return smt.fresh('noexc', smt.Exc)
 
 
-def _std_getitem_variants(props_idx=('C02',), props_key=('C03',), with_key=True, loops=None,
+def _std_getitem_variants(props_idx=('C02',), props_key=('C03', 'C14'),      # C14: catch().items() looks every example up by key
+                           with_key=True, loops=None,
                           req_idx=None, req_key=None, inline=()):
     vs = [Variant('int', params={'item': 'int'}, requires=req_idx or (lambda S: self_view(S).idx),
                   post=post_getitem_int(self_view), props=props_idx, loops=loops or {}, inline=inline)]
